@@ -136,6 +136,25 @@ Theorem C14_splitdown_frame : forall (field : val) (sep : Z) (hdr : row) (rows :
           nth_error out k = if Z.eqb (Z.of_nat k) i then Some (VStr part) else py_nth r (Z.of_nat k)) o.
 Proof. exact splitdown_model_frame. Qed.
 
+(* the exact shape of splitdown: the data rows are the concatenation, in source order, of one block per source row, and the block
+   of r holds one row per part of r's split cell, in the order of the parts; hence the row count *)
+Theorem C14_splitdown_exact : forall (field : val) (sep : Z) (hdr : row) (rows : list row) (outt : table),
+  splitdown_model field sep (hdr :: rows) = (outt, None) ->
+  exists i blocks, outt = hdr :: concat blocks /\
+    Forall2 (fun r block => exists s, py_nth r i = Some (VStr s) /\
+      Forall2 (fun part out => length out = length hdr /\
+                 forall k, (k < length hdr)%nat ->
+                   nth_error out k = if Z.eqb (Z.of_nat k) i then Some (VStr part) else py_nth r (Z.of_nat k))
+              (split_on sep [] s) block) rows blocks.
+Proof. exact splitdown_model_exact. Qed.
+
+Theorem C14_splitdown_row_count : forall (field : val) (sep : Z) (hdr : row) (rows : list row) (outt : table),
+  splitdown_model field sep (hdr :: rows) = (outt, None) ->
+  exists i, length outt = S (list_sum (map (fun r => match py_nth r i with
+                                                      | Some (VStr s) => S (length (filter (fun c => Z.eqb c sep) s))
+                                                      | _ => O end) rows)).
+Proof. exact splitdown_model_row_count. Qed.
+
 (* melt emits the same number of rows for every input row when no cell is missing (one per variable) *)
 Theorem C14_rows_times_variables : forall (A B : Type) (f : A -> list B) (l : list A) k,
   (forall x, In x l -> length (f x) = k) -> length (flat_map f l) = (length l * k)%nat.
@@ -204,3 +223,5 @@ Print Assumptions C14_split_part_count.
 Print Assumptions C14_splitdown_row_frame.
 Print Assumptions C14_splitdown_row_exists.
 Print Assumptions C14_splitdown_frame.
+Print Assumptions C14_splitdown_exact.
+Print Assumptions C14_splitdown_row_count.
